@@ -349,3 +349,34 @@ func Layout(off int64, plen int) (start, end int64, size int64) {
 	}
 	return start, pos, size
 }
+
+// Chunk describes one chunk header position of a file image.
+type Chunk struct {
+	Off  int64 // offset of the chunk header
+	Len  int
+	Type byte
+}
+
+// ScanChunks lists the chunks of a well-formed file image.
+func ScanChunks(data []byte) []Chunk {
+	var out []Chunk
+	pos := int64(0)
+	n := int64(len(data))
+	for pos+Header <= n {
+		inb := pos % Block
+		if inb+Header >= Block && inb != 0 {
+			pos += Block - inb
+			continue
+		}
+		l := int64(binary.LittleEndian.Uint16(data[pos+4 : pos+6]))
+		if pos+Header+l > n || inb+Header+l > Block {
+			break
+		}
+		if crc32.ChecksumIEEE(data[pos+4:pos+Header+l]) != binary.LittleEndian.Uint32(data[pos:pos+4]) {
+			break
+		}
+		out = append(out, Chunk{Off: pos, Len: int(l), Type: data[pos+6]})
+		pos += Header + l
+	}
+	return out
+}
